@@ -217,6 +217,33 @@ pub fn run(cfg: &Cfg, rep: &mut Report) {
         ctx.one(&p, Flags::from_str("ims"), "targeted");
         ctx.one(&p, Flags::from_str("isv"), "targeted");
     }
+    // (b2) quantifier bounds around every width at which a parser could saturate or overflow, with
+    // and without leading zeros: validity depends only on the numeric order of the two bounds
+    let bigs = [
+        "0", "1", "2", "9", "10", "65535", "65536", "2147483647", "2147483648", "4294967295", "4294967296", "9007199254740991", "9007199254740992", "9223372036854775807", "9223372036854775808", "18446744073709551615", "18446744073709551616",
+        "18446744073709551617", "99999999999999999999", "100000000000000000000", "100000000000000000001", "999999999999999999999", "340282366920938463463374607431768211455", "340282366920938463463374607431768211456",
+    ];
+    let mut bounds: Vec<String> = bigs.iter().map(|s| s.to_string()).collect();
+    for b in ["1", "10", "18446744073709551616", "99999999999999999999"] {
+        bounds.push(format!("0{}", b));
+        bounds.push(format!("000{}", b));
+    }
+    for x in &bounds {
+        for y in &bounds {
+            for tmpl in ["a{X,Y}", "a{X,Y}?", "(?:a{X,Y}b)"] {
+                let p = engine::to_cps(&tmpl.replace("X", x).replace("Y", y));
+                for m in &ms {
+                    ctx.one(&p, *m, "targeted");
+                }
+            }
+        }
+        for tmpl in ["a{X}", "a{X,}", "a{X", "a{X,", "a{,X}"] {
+            let p = engine::to_cps(&tmpl.replace("X", x));
+            for m in &ms {
+                ctx.one(&p, *m, "targeted");
+            }
+        }
+    }
     // (c) printed structured patterns and their single-edit neighbours
     let n = cfg.scaled(if cfg.quick() { 12_000 } else { 400_000 });
     let mut rng = Rng::new(cfg.seed ^ 0xC08);
